@@ -41,7 +41,7 @@ pub fn run_engine_for(id: &str, path: &str, args: &[&str], envs: &[(&str, &str)]
             if let Some(sig) = out.status.signal() {
                 // an engine that runs the library's band code in-process died on a signal: a crash
                 // verdict (memory corruption / abort inside the library), not a machinery failure
-                let s = format!("{}|crash|engine '{}' died on signal {} while running band code", id, label, sig);
+                let s = format!("{}|crash|engine '{}' died on signal {} while running library code", id, label, sig);
                 rep.sig_counts.insert(s.clone(), 1);
                 rep.viols.push(Viol { space: format!("engine:{}", label), idx: 0, sig: s, detail: json!({"status": format!("{:?}", out.status)}) });
             } else {
